@@ -253,6 +253,7 @@ def gen_case(rng, eng, shape=None):
             kind = rng.choice(["ow", "ow2", "badowner", "owner_pdsh", "owner_me", "gw", "notreg", "fifo", "nostat",
                                "badowner_ow"])
             p = os.path.join(target_dir, f)
+            c.setdefault("kinds", []).append("file:" + kind)
             sm[p] = {"ow": "-:100666", "ow2": "-:100646", "badowner": "%d:-" % OTHER_UID,
                      "owner_pdsh": "%d:-" % PDSH_OWNER, "owner_me": "%d:-" % c["uid"], "gw": "-:100664",
                      "notreg": "-:40755", "fifo": "-:10644", "nostat": "!",
@@ -263,6 +264,7 @@ def gen_case(rng, eng, shape=None):
         a = rng.choice(anc)
         kind = rng.choice(["ow", "ow_sticky", "badowner", "owner_pdsh", "owner_me", "gw", "notdir", "nostat",
                            "badowner_sticky"])
+        c.setdefault("kinds", []).append("ancestor:" + kind)
         sm[a] = {"ow": "-:40777", "ow_sticky": "-:41777", "badowner": "%d:40755" % OTHER_UID,
                  "owner_pdsh": "%d:40755" % PDSH_OWNER, "owner_me": "%d:40755" % c["uid"], "gw": "-:40775",
                  "notdir": "-:100755", "nostat": "!", "badowner_sticky": "%d:41777" % OTHER_UID}[kind]
@@ -315,6 +317,13 @@ def planned_cases(eng):
     out.append(mk(["m01.so", "m06.so"], uid=0, euid=0))
     out.append(mk(["m01.so", "m06.so"], euid=0))
     out.append(mk(["m08.so", "m09.so", "m10.so"], pers=PCP))
+    # a shared option used on the command line while the EARLIER-sorted owner is inactive because of -M
+    out.append(mk(["m01.so", "m02.so", "m22.so"], misc_opt="tau"))
+    out.append(mk(["m03.so", "m04.so", "m05.so"], misc_opt="gamma"))
+    # file-name order differs from declared-name order among equal priorities, with a shared option:
+    # m03=gamma / m04=delta share -g (delta sorts first by name, gamma by file); m13=nu / m14=xi; m02=beta / m22=tau
+    out.append(mk(["m03.so", "m04.so"]))
+    out.append(mk(["m04.so", "m03.so", "m21.so", "m16.so"]))
     return out
 
 
@@ -411,7 +420,7 @@ def run(ctx):
     pool = preload.Pool(ctx)
     ok = repo is not None and pool.build() and preload.check_imports(ctx, os.path.join(repo, "src/pdsh/pdsh"))
     dist = {"runs": 0, "fatal": 0, "root_or_setuid": 0, "insecure_file": 0, "insecure_path": 0, "forced": 0,
-            "pcp": 0, "order_pairs": 0, "order_dependent": 0, "opt_uses": 0, "exhaustive_orders": 0,
+            "pcp": 0, "order_pairs": 0, "order_dependent": 0, "opt_uses": 0, "exhaustive_orders": 0, "branches": {},
             "perm_matrix": 0, "spec_violation_classes": {}}
     distinct = set()
     if ok:
@@ -513,6 +522,91 @@ def replay_cases(ctx, eng):
     return out
 
 
+def branches(eng, c, o, uses, b):
+    """which branches / error kinds of the loader this case exercised (coverage report only)"""
+    def hit(k):
+        b[k] = b.get(k, 0) + 1
+    pool = eng.pool
+    for k in c.get("kinds", []):
+        hit("override:" + k)
+    if c["uid"] == 0:
+        hit("caller:root")
+    elif c["uid"] != c["euid"]:
+        hit("caller:setuid")
+    if not c["envdir"]:
+        hit("PDSH_MODULE_DIR unset")
+    if c["statmap"].get(eng.exe) == "!":
+        hit("owner of binary unknown")
+    elif eng.exe in c["statmap"]:
+        hit("owner of binary faked")
+    if o["fatal"]:
+        hit("fatal:nothing opened" if not o["opened"] else "fatal:nothing loadable")
+    if not eng.uses_env(c):
+        return
+    descs = [pool.by_file[f] for f in c["files"] if f in pool.by_file]
+    for d in descs:
+        if d.kind != "mod":
+            hit("entry:" + d.kind)
+    if "." in c["files"]:
+        hit("entry:dot")
+    mods = [d for d in descs if d.kind == "mod"]
+    keys = {}
+    for d in mods:
+        keys.setdefault((d.type, d.name), []).append(d)
+    for g in keys.values():
+        if len(g) > 1:
+            ps = sorted(x.effective_prio(eng.default_prio) for x in g)
+            hit("duplicate:equal priority" if len(set(ps)) < len(ps) else "duplicate:different priority")
+    if any(not (d.pers & c["pers"]) for d in mods):
+        hit("module of the other personality")
+    if any(d.init == -1 for d in mods):
+        hit("failing init present")
+    if len(o["calls"]) != len(set(o["calls"])):
+        hit("init run twice (forced module without applicable options)")
+    listed = [pool.by_file[f] for f, _ in o["listed"] if f in pool.by_file]
+    active = {f for f, a in o["listed"] if a}
+    if c["misc"] is not None:
+        names = [x for x in c["misc"].split(",")]
+        if any(x == "" for x in names):
+            hit("-M:empty piece")
+        if len(set(names)) < len(names):
+            hit("-M:repeated name")
+        for nm in set(names):
+            if nm and not any(d.type == "misc" and d.name == nm for d in listed):
+                hit("-M:name not loaded")
+            if nm and any(d.type == "misc" and d.name == nm and d.file not in active for d in listed):
+                hit("-M:forced module stays inactive")
+        hit("-M via " + ("option" if c["misc_opt"] is not None else "environment"))
+    if any(f not in active for f, _ in o["listed"]):
+        hit("some module inactive")
+    # order by declared name vs. order by file name among the listed modules
+    byname = sorted(listed, key=lambda d: (-d.effective_prio(eng.default_prio), d.name, d.type))
+    byfile = sorted(listed, key=lambda d: (-d.effective_prio(eng.default_prio), d.file))
+    if [d.id for d in byname] != [d.id for d in byfile]:
+        hit("file-name order differs from declared-name order")
+        for i, x in enumerate(byname):
+            for y in byname[i + 1:]:
+                if x.effective_prio(eng.default_prio) == y.effective_prio(eng.default_prio) and x.file > y.file and \
+                   {ch for ch, _, p in x.opts if p & c["pers"]} & {ch for ch, _, p in y.opts if p & c["pers"]}:
+                    hit("file-name order differs AND the two modules share an option")
+                    break
+            else:
+                continue
+            break
+    for ch, u in uses.items():
+        hit("option use:" + {"h": "handled", "i": "invalid", "n": "no active owner"}.get(u[0], "?"))
+        owners = [d for d in listed if any(x == ch for x, _, _ in d.opts)]
+        if len(owners) > 1:
+            hit("option use:letter shared by several listed modules")
+            if u[0] == "h":
+                hf = unhx(u[1:].split(".")[0])
+                first = owners[0]
+                if first.file != hf and first.file not in active:
+                    hit("option use:shared letter, earlier-sorted owner inactive, later one handles it")
+                    if c["misc"]:
+                        hit("option use:shared letter, earlier-sorted owner inactive because of -M, option used")
+
+
 def nontrivial_key(eng, c):
     pool = eng.pool
     mods = [pool.by_file[f] for f in c["files"] if f in pool.by_file and pool.by_file[f].kind == "mod"]
@@ -600,6 +694,7 @@ def check_cases(ctx, eng, cases, cov, dist, distinct, rng):
             dist["pcp"] += 1
         if origin == "matrix":
             dist["perm_matrix"] += 1
+        branches(eng, c, o1, uses, dist["branches"])
         if any(k.startswith(eng.pool.dir + "/") or k.startswith(eng.builtin + "/") for k in c["statmap"]):
             dist["insecure_file"] += 1
         if any(not (k.startswith(eng.pool.dir + "/") or k.startswith(eng.builtin + "/")) and k != eng.exe
